@@ -33,6 +33,10 @@ TEMPLATES = [
     ('reverse-application', '', 'fn inc(x) = x + S0\nfn scale(k, x) = x * k\nS1 |> inc |> scale(S2)'),
     ('struct-fields', '', 'struct P { a: Scalar, b: Scalar, c: Scalar }\nlet p = P { c: S2, a: S0, b: S1 }\np.a - p.b * p.c'),
     ('struct-nested-access', '', 'struct In { v: Scalar, w: Scalar }\nstruct Out { i: In, k: Scalar }\nlet o = Out { k: S0, i: In { w: S1, v: S2 } }\no.i.v + o.k'),
+    ('struct-literal-direct-access', '', 'struct Pair { first: Scalar, second: Scalar }\nPair { second: S1, first: S0 }.first - Pair { second: S1, first: S0 }.second'),
+    ('builtin-via-function-value', LISTS, 'let f = cons_end\nhead(f(S0, [S1, S2]))'),
+    ('builtin-via-fn-parameter', LISTS, 'fn apply2(f: Fn[(Scalar, List<Scalar>) -> List<Scalar>], a: Scalar, b: List<Scalar>) -> List<Scalar> = f(a, b)\nlet xs = apply2(cons, S0, [S1, S2])\nelement_at(2, xs) - head(xs)'),
+    ('nested-call-frames', '', 'fn g(x) = x * S0\nfn f(x, y) = g(x) + g(y) - x\nf(S1, S2)'),
     ('list-head-tail', LISTS, 'head(tail([S0, S1, S2]))'),
     ('list-cons', LISTS, 'let xs = cons(S0, [S1, S2])\nelement_at(2, xs) - head(xs)'),
     ('list-len', LISTS, 'len(cons_end(S0, [S1, S2]))'),
